@@ -20,8 +20,9 @@ use dicom_pixeldata::Transcode;
 use dicom_transfer_syntax_registry::TransferSyntaxRegistry;
 use dicom_ul::association::read_pdu_from_wire;
 use dicom_ul::pdu::{
-    write_pdu, AssociationAC, PDataValue, PDataValueType, Pdu, PresentationContextResult,
-    PresentationContextResultReason, UserVariableItem,
+    write_pdu, AbortRQSource, AssociationAC, AssociationRJ, AssociationRJResult, AssociationRJServiceUserReason,
+    AssociationRJSource, PDataValue, PDataValueType, Pdu, PresentationContextResult, PresentationContextResultReason,
+    UserVariableItem,
 };
 use serde_json::{json, Value};
 use std::collections::HashMap;
@@ -167,13 +168,13 @@ fn command_bytes(obj: &InMemDicomObject) -> Vec<u8> {
     v
 }
 
-fn store_rsp(msgid: u16, cls: &str, inst: &str) -> Vec<u8> {
+fn store_rsp(msgid: u16, cls: &str, inst: &str, status: u16) -> Vec<u8> {
     command_bytes(&InMemDicomObject::command_from_element_iter([
         DataElement::new(tags::AFFECTED_SOP_CLASS_UID, VR::UI, dicom_value!(Str, cls)),
         DataElement::new(tags::COMMAND_FIELD, VR::US, dicom_value!(U16, [0x8001])),
         DataElement::new(tags::MESSAGE_ID_BEING_RESPONDED_TO, VR::US, dicom_value!(U16, [msgid])),
         DataElement::new(tags::COMMAND_DATA_SET_TYPE, VR::US, dicom_value!(U16, [0x0101])),
-        DataElement::new(tags::STATUS, VR::US, dicom_value!(U16, [0x0000])),
+        DataElement::new(tags::STATUS, VR::US, dicom_value!(U16, [status])),
         DataElement::new(tags::AFFECTED_SOP_INSTANCE_UID, VR::UI, dicom_value!(Str, inst)),
     ]))
 }
@@ -185,6 +186,12 @@ struct CaseShared {
     events: Mutex<Vec<Value>>,
     assocs: AtomicUsize,
     multi_ts: AtomicUsize,
+    /// misbehaviour of the acceptor: kind at the `script_at`-th request of an association
+    script_kind: String,
+    script_at: usize,
+    /// record wire/DIMSE level events per association
+    wire: bool,
+    wire_events: Mutex<Vec<(usize, Vec<Value>)>>,
 }
 
 #[derive(Default)]
@@ -230,13 +237,86 @@ fn judge_data(sh: &CaseShared, file: Option<usize>, ctx_ts_uid: &str, data: &[u8
     }
 }
 
-fn handle_conn(mut sock: TcpStream, sh: Arc<CaseShared>) {
+/// Bytes of the peer already waiting (read buffer + socket) - evidence that the tool sent
+/// something before it got the answer it should wait for.
+fn pending_bytes(sock: &TcpStream, buf: &BytesMut) -> usize {
+    let mut n = buf.len();
+    if sock.set_nonblocking(true).is_ok() {
+        let mut b = [0u8; 64];
+        if let Ok(k) = sock.peek(&mut b) {
+            n += k;
+        }
+        let _ = sock.set_nonblocking(false);
+    }
+    n
+}
+
+/// Read whatever the tool still sends until it ends the connection; tells how it ended.
+fn drain(sock: &mut TcpStream, buf: &mut BytesMut) -> (&'static str, usize) {
+    let mut pdata = 0usize;
+    loop {
+        match read_pdu_from_wire(sock, buf, 1 << 20, false) {
+            Ok(Pdu::PData { .. }) => pdata += 1,
+            Ok(Pdu::ReleaseRQ) => return ("release", pdata),
+            Ok(Pdu::AbortRQ { .. }) => return ("abort", pdata),
+            Ok(_) => return ("other_pdu", pdata),
+            Err(dicom_ul::association::Error::ConnectionClosed { .. }) => return ("eof", pdata),
+            Err(_) => return ("error", pdata),
+        }
+    }
+}
+
+fn send_pdu(sock: &mut TcpStream, pdu: &Pdu) -> bool {
+    let mut out = Vec::new();
+    write_pdu(&mut out, pdu).is_ok() && sock.write_all(&out).is_ok()
+}
+
+fn handle_conn(sock: TcpStream, sh: Arc<CaseShared>) {
     let assoc_no = sh.assocs.fetch_add(1, Ordering::SeqCst) + 1;
+    let mut wev: Vec<Value> = Vec::new();
+    conn_inner(sock, &sh, assoc_no, &mut wev);
+    if sh.wire {
+        sh.wire_events.lock().unwrap().push((assoc_no, wev));
+    }
+}
+
+/// wire-level record of the request being received
+#[derive(Default)]
+struct WireRq {
+    pdvs: Vec<Value>,
+    pdus: Vec<usize>,
+    field: i64,
+    msgid: i64,
+    dstype: i64,
+    prio: i64,
+    glen: i64,
+    cmd_len: usize,
+}
+
+fn conn_inner(mut sock: TcpStream, sh: &Arc<CaseShared>, assoc_no: usize, wev: &mut Vec<Value>) {
     let mut buf = BytesMut::with_capacity(70000);
     let rq = match read_pdu_from_wire(&mut sock, &mut buf, 1 << 20, false) {
         Ok(Pdu::AssociationRQ(rq)) => rq,
-        _ => return,
+        _ => {
+            wev.push(json!({"ev":"assoc","assoc":assoc_no,"result":"no_rq","max_len":sh.max_len}));
+            wev.push(json!({"ev":"fin","assoc":assoc_no,"how":"error","after_rp":"","pending":false,"drained":0}));
+            return;
+        }
     };
+    let fin = |wev: &mut Vec<Value>, how: &str, after_rp: &str, pending: bool, drained: usize| {
+        wev.push(json!({"ev":"fin","assoc":assoc_no,"how":how,"after_rp":after_rp,"pending":pending,"drained":drained}));
+    };
+    if sh.script_kind == "reject" {
+        wev.push(json!({"ev":"assoc","assoc":assoc_no,"result":"rj","max_len":sh.max_len}));
+        let rj = Pdu::AssociationRJ(AssociationRJ {
+            result: AssociationRJResult::Permanent,
+            source: AssociationRJSource::ServiceUser(AssociationRJServiceUserReason::NoReasonGiven),
+        });
+        let _ = send_pdu(&mut sock, &rj);
+        let (how, n) = drain(&mut sock, &mut buf);
+        fin(wev, how, "", false, n);
+        return;
+    }
     // id -> (abstract short, ts short, ts uid, accepted)
     let mut ctxs: HashMap<u8, (String, String, String, bool)> = HashMap::new();
     let mut results = Vec::new();
@@ -263,6 +343,8 @@ fn handle_conn(mut sock: TcpStream, sh: Arc<CaseShared>) {
         });
         ctxs.insert(pc.id, (abs, ts, tsu, acc));
     }
+    let any_acc = ctxs.values().any(|c| c.3);
+    wev.push(json!({"ev":"assoc","assoc":assoc_no,"result": if any_acc {"ac"} else {"none_accepted"},"max_len":sh.max_len}));
     let ac = Pdu::AssociationAC(AssociationAC {
         protocol_version: rq.protocol_version,
         calling_ae_title: rq.calling_ae_title.clone(),
@@ -275,20 +357,31 @@ fn handle_conn(mut sock: TcpStream, sh: Arc<CaseShared>) {
             UserVariableItem::ImplementationVersionName("VERIF-ACC".to_string()),
         ],
     });
-    let mut out = Vec::new();
-    if write_pdu(&mut out, &ac).is_err() || sock.write_all(&out).is_err() {
+    if !send_pdu(&mut sock, &ac) {
+        fin(wev, "error", "", false, 0);
         return;
     }
     let mut pend: HashMap<u8, Pending> = HashMap::new();
+    let mut cur = WireRq::default();
+    let mut seq = 0usize; // requests seen on this association (complete or cut short by the script)
     loop {
         let pdu = match read_pdu_from_wire(&mut sock, &mut buf, 1 << 20, false) {
             Ok(p) => p,
-            Err(_) => return,
+            Err(dicom_ul::association::Error::ConnectionClosed { .. }) => {
+                fin(wev, "eof", "", !cur.pdvs.is_empty(), 0);
+                return;
+            }
+            Err(_) => {
+                fin(wev, "error", "", !cur.pdvs.is_empty(), 0);
+                return;
+            }
         };
         match pdu {
             Pdu::PData { data } => {
+                cur.pdus.push(data.iter().map(|v| 6 + v.data.len()).sum());
                 for pdv in data {
                     let id = pdv.presentation_context_id;
+                    cur.pdvs.push(json!([id, if pdv.value_type == PDataValueType::Command { 0 } else { 1 }, if pdv.is_last { 1 } else { 0 }, pdv.data.len()]));
                     let p = pend.entry(id).or_default();
                     let mut complete = false;
                     match pdv.value_type {
@@ -297,13 +390,23 @@ fn handle_conn(mut sock: TcpStream, sh: Arc<CaseShared>) {
                             if pdv.is_last {
                                 let its = dicom_transfer_syntax_registry::entries::IMPLICIT_VR_LITTLE_ENDIAN.erased();
                                 let cmd = catch(|| InMemDicomObject::read_dataset_with_ts(&p.cmd[..], &its));
+                                cur.cmd_len = p.cmd.len();
                                 p.cmd.clear();
-                                let Ok(Ok(cmd)) = cmd else { return };
-                                let field = cmd.element(tags::COMMAND_FIELD).ok().and_then(|e| e.to_int::<u16>().ok()).unwrap_or(0);
+                                let Ok(Ok(cmd)) = cmd else {
+                                    fin(wev, "error", "", true, 0);
+                                    return;
+                                };
+                                let num = |t| cmd.element(t).ok().and_then(|e| e.to_int::<i64>().ok()).unwrap_or(-1);
+                                let field = num(tags::COMMAND_FIELD);
+                                cur.field = field;
+                                cur.msgid = num(tags::MESSAGE_ID);
+                                cur.dstype = num(tags::COMMAND_DATA_SET_TYPE);
+                                cur.prio = num(tags::PRIORITY);
+                                cur.glen = num(tags::COMMAND_GROUP_LENGTH);
                                 if field != 0x0001 {
                                     continue; // not a C-STORE-RQ: ignored
                                 }
-                                p.msgid = cmd.element(tags::MESSAGE_ID).ok().and_then(|e| e.to_int::<u16>().ok()).unwrap_or(0);
+                                p.msgid = cur.msgid.clamp(0, 65535) as u16;
                                 let st = |t| {
                                     cmd.element(t)
                                         .ok()
@@ -314,9 +417,18 @@ fn handle_conn(mut sock: TcpStream, sh: Arc<CaseShared>) {
                                 p.inst = st(tags::AFFECTED_SOP_INSTANCE_UID);
                                 p.have_cmd = true;
                                 p.data.clear();
-                                let dstype = cmd.element(tags::COMMAND_DATA_SET_TYPE).ok().and_then(|e| e.to_int::<u16>().ok()).unwrap_or(0);
-                                if dstype == 0x0101 {
+                                if cur.dstype == 0x0101 {
                                     complete = true; // a C-STORE-RQ without data set
+                                }
+                                if sh.script_kind == "abort_mid" && sh.script_at == seq + 1 {
+                                    // the acceptor aborts while the request is under way
+                                    seq += 1;
+                                    wev.push(json!({"ev":"rq_part","assoc":assoc_no,"seq":seq,"msgid":cur.msgid}));
+                                    wev.push(json!({"ev":"peer","assoc":assoc_no,"seq":seq,"what":"abort"}));
+                                    let _ = send_pdu(&mut sock, &Pdu::AbortRQ { source: AbortRQSource::ServiceUser });
+                                    let (how, n) = drain(&mut sock, &mut buf);
+                                    fin(wev, how, "", true, n);
+                                    return;
                                 }
                             }
                         }
@@ -331,12 +443,14 @@ fn handle_conn(mut sock: TcpStream, sh: Arc<CaseShared>) {
                         }
                     }
                     if complete {
+                        seq += 1;
+                        let early = pending_bytes(&sock, &buf);
                         let file = sh.files.iter().position(|f| f.inst == p.inst);
                         let (abs, ts, tsu, acc) = ctxs
                             .get(&id)
                             .cloned()
                             .unwrap_or_else(|| ("".into(), "".into(), "".into(), false));
-                        let (ok, why) = judge_data(&sh, file, &tsu, &p.data);
+                        let (ok, why) = judge_data(sh, file, &tsu, &p.data);
                         let ev = json!({"ev":"store",
                             "file": file.map(|k| k + 1).unwrap_or(0),
                             "ctx_id": id, "ctx_abs": abs, "ctx_ts": ts, "accepted": acc,
@@ -345,30 +459,73 @@ fn handle_conn(mut sock: TcpStream, sh: Arc<CaseShared>) {
                             "data_ok": ok, "why": why, "data_len": p.data.len(),
                             "cmd_cls": cls_short(&p.cls), "assoc": assoc_no});
                         sh.events.lock().unwrap().push(ev);
+                        let w = std::mem::take(&mut cur);
+                        wev.push(json!({"ev":"rq","assoc":assoc_no,"seq":seq,"file": file.map(|k| k + 1).unwrap_or(0),
+                            "ctx": id, "ctx_ok": acc, "field": w.field, "msgid": w.msgid, "dstype": w.dstype, "prio": w.prio,
+                            "glen": w.glen, "cmd_len": w.cmd_len, "cmd_cls": cls_short(&p.cls),
+                            "pdvs": w.pdvs, "pdus": w.pdus, "early": early}));
+                        let kind = if sh.script_at == seq { sh.script_kind.as_str() } else { "ok" };
+                        let (status, mid): (u16, u16) = match kind {
+                            "fail" => (0xA700, p.msgid),
+                            "warn" => (0xB000, p.msgid),
+                            "wrong_msgid" => (0x0000, p.msgid.wrapping_add(7)),
+                            _ => (0x0000, p.msgid),
+                        };
+                        p.have_cmd = false;
+                        p.data.clear();
+                        match kind {
+                            "close" => {
+                                wev.push(json!({"ev":"peer","assoc":assoc_no,"seq":seq,"what":"close"}));
+                                let _ = sock.shutdown(std::net::Shutdown::Write);
+                                let (how, n) = drain(&mut sock, &mut buf);
+                                fin(wev, how, "", false, n);
+                                return;
+                            }
+                            "abort" => {
+                                wev.push(json!({"ev":"peer","assoc":assoc_no,"seq":seq,"what":"abort"}));
+                                let _ = send_pdu(&mut sock, &Pdu::AbortRQ { source: AbortRQSource::ServiceUser });
+                                let (how, n) = drain(&mut sock, &mut buf);
+                                fin(wev, how, "", false, n);
+                                return;
+                            }
+                            _ => {}
+                        }
                         let rsp = Pdu::PData {
                             data: vec![PDataValue {
                                 presentation_context_id: id,
                                 value_type: PDataValueType::Command,
                                 is_last: true,
-                                data: store_rsp(p.msgid, &p.cls, &p.inst),
+                                data: store_rsp(mid, &p.cls, &p.inst, status),
                             }],
                         };
-                        p.have_cmd = false;
-                        p.data.clear();
-                        let mut out = Vec::new();
-                        if write_pdu(&mut out, &rsp).is_err() || sock.write_all(&out).is_err() {
+                        let kind_rec = if kind == "abort_mid" { "ok" } else { kind };
+                        wev.push(json!({"ev":"rsp","assoc":assoc_no,"seq":seq,"kind":kind_rec,"status":status,"msgid_resp":mid}));
+                        if !send_pdu(&mut sock, &rsp) {
+                            fin(wev, "error", "", false, 0);
                             return;
                         }
                     }
                 }
             }
             Pdu::ReleaseRQ => {
-                let mut out = Vec::new();
-                let _ = write_pdu(&mut out, &Pdu::ReleaseRP);
-                let _ = sock.write_all(&out);
+                let pending = !cur.pdvs.is_empty() || pend.values().any(|p| p.have_cmd);
+                let _ = send_pdu(&mut sock, &Pdu::ReleaseRP);
+                let after = match read_pdu_from_wire(&mut sock, &mut buf, 1 << 20, false) {
+                    Ok(_) => "data",
+                    Err(dicom_ul::association::Error::ConnectionClosed { .. }) => "eof",
+                    Err(_) => "error",
+                };
+                fin(wev, "release", after, pending, 0);
                 return;
             }
-            _ => return,
+            Pdu::AbortRQ { .. } => {
+                fin(wev, "abort", "", !cur.pdvs.is_empty(), 0);
+                return;
+            }
+            _ => {
+                fin(wev, "other_pdu", "", !cur.pdvs.is_empty(), 0);
+                return;
+            }
         }
     }
 }
@@ -378,7 +535,7 @@ fn run_case(bin: &str, work: &Path, case_no: usize, c: &Value, seed: u64) -> (Ve
     let _ = std::fs::remove_dir_all(&dir);
     std::fs::create_dir_all(&dir).expect("case dir");
     // every fourth case: larger pixel data and a small acceptor PDU length, so that the data set is fragmented
-    let big = case_no % 4 == 3;
+    let big = c.get("big").and_then(|b| b.as_bool()).unwrap_or(case_no % 4 == 3);
     let side: u16 = if big { 64 } else { 16 };
     let files: Vec<MadeFile> = j_arr(&c["files"])
         .iter()
@@ -389,6 +546,9 @@ fn run_case(bin: &str, work: &Path, case_no: usize, c: &Value, seed: u64) -> (Ve
     let nt = c["nt"].as_bool().unwrap();
     let ign = c["ign"].as_bool().unwrap();
     let conc = j_usize(&c["conc"]);
+    let ff = c.get("ff").and_then(|b| b.as_bool()).unwrap_or(false);
+    let wire = c.get("wire").and_then(|b| b.as_bool()).unwrap_or(false);
+    let script = c.get("script").cloned().unwrap_or_else(|| json!({"kind":"ok","at":0}));
     let sh = Arc::new(CaseShared {
         files,
         policy,
@@ -396,6 +556,10 @@ fn run_case(bin: &str, work: &Path, case_no: usize, c: &Value, seed: u64) -> (Ve
         events: Mutex::new(Vec::new()),
         assocs: AtomicUsize::new(0),
         multi_ts: AtomicUsize::new(0),
+        script_kind: j_str(&script["kind"]).to_string(),
+        script_at: j_usize(&script["at"]),
+        wire,
+        wire_events: Mutex::new(Vec::new()),
     });
     let listener = TcpListener::bind("127.0.0.1:0").expect("bind");
     let port = listener.local_addr().unwrap().port();
@@ -406,6 +570,9 @@ fn run_case(bin: &str, work: &Path, case_no: usize, c: &Value, seed: u64) -> (Ve
     }
     if ign {
         cmd.arg("--ignore-sop-class");
+    }
+    if ff {
+        cmd.arg("--fail-first");
     }
     if conc > 0 {
         cmd.arg("--concurrency").arg(conc.to_string());
@@ -462,10 +629,16 @@ fn run_case(bin: &str, work: &Path, case_no: usize, c: &Value, seed: u64) -> (Ve
     }
     let mut evs = Vec::new();
     evs.push(json!({"ev":"case","case":case_no + 1,"files":c["files"],"policy":c["policy"],"nt":nt,"ign":ign,"conc":conc,
+        "ff":ff,"script":script,"wire":wire,"expect_x":c.get("expect_x").cloned().unwrap_or(json!({"exact":false,"exit":"","ended":"","nreq":0})),
         "max_len": sh.max_len, "pixel_bytes": side as usize * side as usize}));
     let mut stores = std::mem::take(&mut *sh.events.lock().unwrap());
     stores.sort_by_key(|e| (e["file"].as_u64().unwrap_or(0), e["assoc"].as_u64().unwrap_or(0), e["ctx_id"].as_u64().unwrap_or(0)));
     evs.extend(stores);
+    let mut wv = std::mem::take(&mut *sh.wire_events.lock().unwrap());
+    wv.sort_by_key(|(n, _)| *n);
+    for (_, w) in wv {
+        evs.extend(w);
+    }
     evs.push(json!({"ev":"end","assocs":sh.assocs.load(Ordering::SeqCst),"exit":exited.unwrap_or(0),"timed_out":timed_out,
         "multi_ts_contexts": sh.multi_ts.load(Ordering::SeqCst)}));
     let _ = std::fs::remove_dir_all(&dir);
